@@ -28,7 +28,8 @@ CHECKS = {
          "a required field is never silently excluded; element conversions are abstract (proved for every converter); all obligations discharged.", "DESIGN 3 C11"),
  "C09": ("other", "contract-based deductive verification of LogicalType.logical_parse (union stages, exclusive-or, negation, conjunction fold) with abstract leaves",
          "Combinator semantics proved on the real logical_parse for all inputs and argument lists: union = exact type unchanged, else first accepting argument in stage order; exclusive-or = exactly one argument accepts the given input (order independent); "
-         "negation; conjunction = fold of the running value; normal return leaves no recorded error. The construction algebra (combine / combine_by / operators) is not under contract yet - hence 'other'. One known finding (xor exact-type shortcut).", "DESIGN 3 C09"),
+         "negation; conjunction = fold of the running value; normal return leaves no recorded error. Construction algebra proved on combine (Any absorbs | and ^ and is ignored by &, duplicates dropped in order, nothing left gives Rule, built combination = kept operands), "
+         "combine_by (same-kind operands flatten, reading order), the operator dunders and __invert__ (double negation cancels). One known finding (xor exact-type shortcut) - hence 'other', not 'proof'; _parse_arg and the LogicalMeta operators of data classes are interfaces.", "DESIGN 3 C09"),
  "C19": ("other", "contract-based deductive verification: freshness / frame obligations on the real functions",
          "copy_value rebuilds list/set/frozenset/tuple/dict at every depth (fresh result, items are copies), ParserField.get_default hands out only copy_value results (force_default, default, default_factory) with the documented gates; "
          "every contracted parse function carries `no input mutation` frame obligations and `fresh result`. Cross-call state (write sets of parser objects, generators) is not decided - hence 'other'.", "DESIGN 3 C19"),
